@@ -5,6 +5,26 @@ HERE = os.path.dirname(os.path.dirname(os.path.abspath(__file__)))
 
 # id -> (category, technique, text, note, design_ref)
 CLAIMED = {
+ "C01": ("model_checking",
+         "bounded-exhaustive enumeration of setup programs through the real CLI; go/types + gofmt as judge of every accepted output",
+         "Families F1 (type matrix 40x40 field types x 2^4 toggles x match), F-name, F2 (signature product), F3 (struct shapes incl. imported/anonymous/unexported), F4 (explicit notations), F5 (hooks), F6 (package layouts: aliases, blank imports, path!=package name, sibling files, colliding parameter names) - about 106k cells thorough / 8.7k quick, each executed on the CLI built from /repo; every run that exits 0 must emit a file that parses, is a gofmt fixed point and type-checks with zero errors inside its package under the ordinary build. Bounded-exhaustive over the stated alphabets.",
+         "go/types, go/format and the in-process importer (helper packages type-checked from source) are trusted; ill-typed user-supplied :literal text and parameter names that shadow packages are outside the quantifier (DESIGN §3 C01).",
+         "DESIGN.md §3 C01"),
+ "C04": ("model_checking",
+         "bounded-exhaustive enumeration of field-pair programs through the real CLI; reference matcher (go/types based) compared with the classified generated body on every destination path",
+         "Families F1 (complete type matrix x 2^4 toggles x match rule), F-name (20 naming variants x field/getter x local/imported x pointer/value x case x getter x match) and F3 (struct shapes, member-wise descent) - 65k cells thorough; per destination path the outcome observed in the generated function (assigned from which expression with which conversion / no match / descent) must lie in the admissible set computed by the reference matcher of DESIGN Appendix A; conversions, String() and getter calls without opt-in and any name match under :match none are violations.",
+         "The reference matcher transcribes the property text; where the text is silent (several same-name candidates, pointer-receiver String, conversion targets that are neither basic nor named) both outcomes are admitted, see DESIGN §2.4.",
+         "DESIGN.md §3 C04"),
+ "C05": ("model_checking",
+         "bounded-exhaustive enumeration through the real CLI; invariant computed from the destination's go/types struct on every generated function plus stderr multiset comparison",
+         "All functions of families F1, F3, F4, F-name (98k cells thorough): no destination path mentioned twice, no mention that is a proper prefix of another, every accessible field covered (recursively), no mention through an inaccessible member, and the multiset of `no match` lines equals the multiset of positioned `no assignment for` warnings on stderr.",
+         "go/types accessibility rules are the reference; positions are checked to the line (method or one of its notations), not the column.",
+         "DESIGN.md §3 C05"),
+ "C06": ("model_checking",
+         "bounded-exhaustive enumeration of notation sets through the real CLI; reference precedence/resolver compared with the classified generated body",
+         "Family F4: :skip/:map/:conv/:literal/$n x 8 destination path forms x 23 source forms x 8 converter shapes x error result x style x case x competing notation (33k cells thorough; all cells within 2 deviations of the base in quick); per destination path the observed line must realise an admissible outcome of the reference (skip > named notation > name match; case-sensitive :map/:conv paths; resolver over fields/getters/embedded/pointers/$n). The run-time half (value actually stored) is checked by C02.",
+         "Two genuine defects are listed as known findings (notation addressing a member of a struct that is assignable as a whole / has no source counterpart is ignored).",
+         "DESIGN.md §3 C06"),
  "C08": ("model_checking",
          "bounded-exhaustive enumeration of method shapes through the real CLI, reference signature builder as oracle",
          "Complete product style x recv x reverse x src/dst pointer-ness x error x 0..3 extra args x named/unnamed x local/imported operands (2048 cells thorough, 1024 quick); every cell is run through the CLI built from /repo, the generated function's types.Signature is compared with a reference builder transcribed from the README; documented-illegal combinations must be rejected. Bounded-exhaustive over the stated alphabet, nothing sampled.",
